@@ -91,6 +91,10 @@ func overValue(kind string) (string, interface{}) {
 		return "70000", 70000
 	case "named":
 		return "300", 300
+	case "f32":
+		return "1e39", 1e39
+	case "c64":
+		return "(1+4e38i)", nil
 	}
 	panic("harness: no out-of-range literal for " + kind)
 }
@@ -161,6 +165,10 @@ func kindType(k string) reflect.Type {
 		return reflect.TypeOf([]time.Duration(nil))
 	case "structs":
 		return reflect.TypeOf([]SItem(nil))
+	case "f32":
+		return reflect.TypeOf(float32(0))
+	case "c64":
+		return reflect.TypeOf(complex64(0))
 	}
 	panic("harness: unknown kind " + k)
 }
@@ -236,6 +244,10 @@ func leafValue(kind string, id int) (reflect.Value, string, interface{}) {
 		return reflect.ValueOf([]time.Duration{time.Duration(id) * time.Second, time.Minute}), "", []interface{}{fmt.Sprintf("%ds", id), "1m0s"}
 	case "structs":
 		return reflect.ValueOf([]SItem{{N: id}, {N: id + 1}}), "", []interface{}{map[string]interface{}{"n": id}, map[string]interface{}{"n": id + 1}}
+	case "f32":
+		return reflect.ValueOf(float32(id) + 0.25), fmt.Sprintf("%d.25", id), float64(id) + 0.25
+	case "c64":
+		return reflect.ValueOf(complex(float32(id), float32(2))), fmt.Sprintf("(%d+2i)", id), nil
 	}
 	panic("harness: no value for " + kind)
 }
@@ -612,7 +624,7 @@ func (r *srcRun) docTree() (map[string]interface{}, bool) {
 	build = func(fs []srcField) map[string]interface{} {
 		m := map[string]interface{}{}
 		for _, f := range fs {
-			if f.Nest == "emb" || f.Tag.Style == "none" || f.Tag.Style == "" || f.Kind == "named" {
+			if f.Nest == "emb" || f.Tag.Style == "none" || f.Tag.Style == "" || f.Kind == "named" || f.Kind == "c64" {
 				ok = false // outside "types whose fields carry dials tags" / not expressible alike in all four formats
 				continue
 			}
